@@ -204,6 +204,10 @@ PROPS["C15"] = dict(
                  cfg={"quick": "MC_C15_mid.cfg", "thorough": "MC_C15_mid.cfg"}, timeout={"quick": 300, "thorough": 900}),
             dict(name="walks", module="CacheLoaders", cmd="cachehist", cfg={"quick": "MC_C15_sim.cfg", "thorough": "MC_C15_sim.cfg"},
                  simulate={"quick": 3000, "thorough": 60000}, depth=16, workers=1, timeout={"quick": 300, "thorough": 1500}, transform=_c15_fs),
+            # the timestamp-aware loader as a FileSystemLoader with two search paths (one name, auto-reload on from the start):
+            # every history of 5 (6) operations
+            dict(name="twopaths", module="CacheLoaders", cmd="cachehist", cfg={"quick": "MC_C15_fs2.cfg", "thorough": "MC_C15_fs2_thorough.cfg"},
+                 timeout={"quick": 300, "thorough": 900}),
             dict(name="random", cfg={}, c2s=dict(gen="cachehist", cmd="cachehist", n={"quick": 300, "thorough": 4000}, len=80,
                                                  trace=dict(module="Trace_C15", cfg="Trace_C15.cfg")))],
     nontrivial=lambda r: True,
